@@ -204,8 +204,10 @@ def check_free_symbols(ctx):
     pm = m.func(GATES + ".Parametrized.modules")
     ctx.analysed(GATES + ".Parametrized.modules")
     ifs = [s for s in pm.body if isinstance(s, ast.If)]
-    rest_ = (ifs[0].orelse or pm.body[pm.body.index(ifs[0]) + 1:]) if ifs else []          # the model has no else after a branch that returns
-    ok = bool(ifs) and ast.unparse(ifs[0].test) == "self.free_symbols" and "sympy" in ast.unparse(ifs[0].body[-1]) and bool(rest_) and "Tensor.np" in ast.unparse(rest_[-1])
+    rest_ = (ifs[0].orelse or pm.body[pm.body.index(ifs[0]) + 1:]) if ifs else []          # the model has no else after a branch that returns: the guard is the shorter branch
+    tst = ast.unparse(ifs[0].test) if ifs else None
+    when_sym, when_num = (ifs[0].body, rest_) if tst == "self.free_symbols" else (rest_, ifs[0].body) if tst == "not self.free_symbols" else ([], [])
+    ok = bool(when_sym) and bool(when_num) and "sympy" in ast.unparse(when_sym[-1]) and "Tensor.np" in ast.unparse(when_num[-1])
     ctx.ob("R14.2", GATES + ".Parametrized.modules", ok, found=ast.unparse(pm)[-120:], required="symbolic arithmetic iff the gate has free symbols", mod=GATES, node=pm, sig="modules")
     # the arrays of parametrised gates are functions of self.phase == self.data
     ph = m.func(GATES + ".Rotation.phase")
